@@ -424,11 +424,15 @@ def footprints(ctx, runner):
                 if routine == "diff":
                     calls = set(tuple(map(int, c.split(":"))) for c in o.get("calls", "").split(";") if c)
                     mcalls = set()
+                    parse_ok = True
                     for t in mtoks:
                         _, _, rr, cc, ii = t.split(":")
+                        if not (rr.lstrip("-").isdigit() and cc.lstrip("-").isdigit() and ii.lstrip("-").isdigit()):
+                            parse_ok = False        # a wildcard index: the table no longer has the expected shape
+                            continue
                         if rr == ii:
                             mcalls.add((int(ii), int(cc)))
-                    good = calls == mcalls and o.get("split") == "0"
+                    good = parse_ok and calls == mcalls and o.get("split") == "0"
                     what = "callback invocations (iteration, inner index) %s vs table iteration space %s" % (
                         sorted(calls ^ mcalls)[:6], "")
                 else:
